@@ -40,6 +40,7 @@ func init() {
 	families["big_dv"] = genBigDv
 	families["twin_persist"] = genTwinPersist
 	families["adv_boundary"] = genAdvBoundary
+	families["fault_load"] = genFaultLoad
 	families["big_freq"] = genBigFreq
 	families["giant_posting"] = genGiantPosting
 	families["pool_vocab"] = genPoolVocab
@@ -575,7 +576,15 @@ func genDvWalk(r *rand.Rand, i int) Scenario {
 	// whole 1024-document chunks without any doc value (leading, middle or trailing gaps)
 	nchunks := (n + 1023) / 1024
 	active := map[int]bool{}
-	if r.Intn(2) == 0 {
+	if i%4 == 0 && nchunks >= 2 {
+		// a chunk with values followed by a chunk without any (later ones at random)
+		active[0] = true
+		for c := 2; c < nchunks; c++ {
+			if r.Intn(2) == 0 {
+				active[c] = true
+			}
+		}
+	} else if r.Intn(2) == 0 {
 		for c := 0; c < nchunks; c++ {
 			active[c] = true
 		}
@@ -653,8 +662,33 @@ func genDvWalk(r *rand.Rand, i int) Scenario {
 	if seg != 1 {
 		targets = append(targets, tgt{seg, cnt, 2})
 	}
+	shift := 0
+	if i%2 == 0 {
+		// the big segment as the SECOND input of a merge: its chunks are renumbered across the 1024 boundaries of the
+		// merged segment (and the merger's sequential scan passes its chunk gaps)
+		ns := 1 + r.Intn(3)
+		small := make(Batch, ns)
+		for d := range small {
+			small[d] = Doc{{Name: "a", Len: 1, DV: true, Value: Bytes{}, Terms: []TermOcc{{Term: B([]byte("s")), Freq: 1, Locs: []Loc{}}}}}
+		}
+		sc.Batches = append(sc.Batches, small)
+		sc.Ops = append(sc.Ops, Op{Op: "build", Seg: 3, Batch: 1, Mode: 0},
+			Op{Op: "merge", File: 2, In: []int{3, 1}, Drops: []DropSpec{{Kind: "nil"}, {Kind: "nil"}}, Mode: 0, Buf: 4096},
+			Op{Op: "load", File: 2, Seg: 4, Backing: []string{"mem", "file"}[r.Intn(2)]})
+		targets = append(targets, tgt{4, n + ns, 3})
+		shift = ns
+	}
 	for _, t := range targets {
 		sc.Ops = append(sc.Ops, Op{Op: "dv_open", Seg: t.seg, R: t.r, Fields: fieldSets[r.Intn(len(fieldSets))]})
+		if t.seg == 4 {
+			for _, h := range hots {
+				sc.Ops = append(sc.Ops, Op{Op: "dv_visit", R: t.r, N: h + shift})
+				if len(sc.Ops) > 400 {
+					break
+				}
+			}
+			sc.Ops = append(sc.Ops, Op{Op: "dv_visit", R: t.r, N: 0})
+		}
 		for k := 0; k < 50; k++ {
 			var d int
 			switch r.Intn(4) {
@@ -847,6 +881,22 @@ func genMatch(r *rand.Rand, i int) Scenario {
 			pairs = append([]Pair{ts[0]}, pairs...)
 		}
 		sc.Ops = append(sc.Ops, Op{Op: "match", Seg: 1 + r.Intn(4), Pairs: pairs})
+	}
+	// second generation: the merged segment (1-hit encoded terms) merged again with a built one, in both orders
+	sc.Ops = append(sc.Ops, Op{Op: "merge", File: 8, In: []int{3, 1}, Drops: []DropSpec{{Kind: "nil"}, {Kind: "nil"}}, Mode: pickMode(r), Buf: 64},
+		Op{Op: "load", File: 8, Seg: 8, Backing: "mem"},
+		Op{Op: "merge", File: 9, In: []int{2, 3}, Drops: []DropSpec{{Kind: "nil"}, {Kind: "nil"}}, Mode: 0, Buf: 64},
+		Op{Op: "load", File: 9, Seg: 9, Backing: "mem"})
+	for _, f := range fnames {
+		ts := append([]Pair{}, byField[f]...)
+		r.Shuffle(len(ts), func(i, j int) { ts[i], ts[j] = ts[j], ts[i] })
+		if len(ts) > 12 {
+			ts = ts[:12]
+		}
+		sc.Ops = append(sc.Ops, Op{Op: "match", Seg: 8 + r.Intn(2), Pairs: ts})
+		for _, t := range ts[:1+r.Intn(len(ts))] {
+			sc.Ops = append(sc.Ops, Op{Op: "match", Seg: 8 + r.Intn(2), Pairs: []Pair{t}})
+		}
 	}
 	for k := 0; k < 10; k++ {
 		n := r.Intn(6)
@@ -1608,6 +1658,20 @@ func genDictInterleave(r *rand.Rand, i int) Scenario {
 			sc.Ops = append(sc.Ops, Op{Op: "dit_next", R: 10*round + 1 + r.Intn(nit)})
 		}
 	}
+	// iterators over nothing (unknown field, empty range) are closed; later ones of the same kinds - on either
+	// segment - and a live one still end quietly / deliver their entries
+	u := universeOf(&cfg)
+	f0 := u[r.Intn(len(u))]
+	k0 := B([]byte("m"))
+	sc.Ops = append(sc.Ops,
+		Op{Op: "dit_open", Seg: 1, Field: f0, R: 90, ReuseD: true},
+		Op{Op: "dit_open", Seg: 1, Field: "nosuchfield", R: 91, ReuseD: true}, Op{Op: "dit_next", R: 91}, Op{Op: "dit_close", R: 91},
+		Op{Op: "dit_open", Seg: 2, Field: "nosuchfield", R: 92, ReuseD: true}, Op{Op: "dit_next", R: 92},
+		Op{Op: "dit_open", Seg: 1, Field: f0, Lo: &Bound{Kind: "key", Key: k0}, Hi: &Bound{Kind: "key", Key: k0}, R: 93, ReuseD: true}, Op{Op: "dit_next", R: 93}, Op{Op: "dit_close", R: 93},
+		Op{Op: "dit_open", Seg: 2, Field: f0, Lo: &Bound{Kind: "key", Key: k0}, Hi: &Bound{Kind: "key", Key: k0}, R: 94, ReuseD: true}, Op{Op: "dit_next", R: 94},
+		Op{Op: "dit_open", Seg: 1, Field: "otherunknown", R: 95}, Op{Op: "dit_next", R: 95}, Op{Op: "dit_next", R: 95},
+		Op{Op: "dit_next", R: 90}, Op{Op: "dit_close", R: 90}, Op{Op: "dit_next", R: 92}, Op{Op: "dit_next", R: 94},
+		Op{Op: "dict", Seg: 1, Field: "nosuchfield"}, Op{Op: "dict", Seg: 2, Field: f0, Lo: &Bound{Kind: "key", Key: k0}, Hi: &Bound{Kind: "key", Key: k0}})
 	return sc
 }
 
